@@ -56,7 +56,7 @@ def run_case(case):
   from ml_metrics._src.chainables import courier_server, lazy_fns as lf  # pylint: disable=g-import-not-at-top
   a, b = case['gen_a'], case.get('gen_b')
   bs, pf = case['batch_size'], case['prefetch_size']
-  what = f'prefetch_size={pf} batch_size={bs} A={a} B={b} reinit_after={case.get("reinit_after")} interrupt={case.get("interrupt")}'
+  what = f'prefetch_size={pf} batch_size={bs} A={a} B={b} reinit_after={case.get("reinit_after")} interrupt={case.get("interrupt")}' + (f' bad_init={case["bad_init"]}' if case.get('bad_init') else '')
   log = []       # ('batch', gen tag of the current generator, payload) / ('reinit',)
   info = {}
 
@@ -68,6 +68,21 @@ def run_case(case):
   def client():
     s = courier_server.PrefetchedCourierServer(f'pf{next(_counter)}', prefetch_size=pf)
     info['server'] = s
+
+    def failed_init(when):
+      # an initialisation that fails on the server (the factory raises / does not give an iterable): the next request is
+      # answered with a terminal marker at once, it does not wait for a generator that was never installed
+      bad = lf.trace(targets.raise_value_error)('bad source') if case['bad_init'][1] == 'raises' else lf.trace(targets.counted_add)(1, 2)
+      try:
+        r = s._init_iterator(lf.pickler.dumps(bad))  # pylint: disable=protected-access
+      except Exception as e:  # pylint: disable=broad-exception-caught
+        r = e
+      check(isinstance(r, Exception), 'bad-generator-accepted', f'{what}: {when}: init of {bad} returned {r!r}')
+      batch = lf.pickler.loads(s._next_batch(bs))  # pylint: disable=protected-access
+      check(len(batch) == 1 and isinstance(batch[-1], Exception), 'request-after-failed-init-not-terminal',
+            f'{what}: {when}: init of {bad} failed with {r!r}; the next request was answered {batch!r}')
+    if case.get('bad_init') and case['bad_init'][0] == 'first':
+      failed_init('first initialisation')
     r = s._init_iterator(lazy_gen(a, 'A'))  # pylint: disable=protected-access
     check(r is None, 'init-generator-failed', f'{what}: init returned {r!r}')
     info['inited'] = True
@@ -86,6 +101,8 @@ def run_case(case):
         break
     else:
       raise Violation('no-terminal-marker', f'{what}: 40 requests without a terminal marker; log={log}')
+    if case.get('bad_init') and case['bad_init'][0] == 'after':
+      failed_init('after the generator was served to its end')
     info['client_done_at'] = dsched.S().now
     s._stop_prefetch()  # pylint: disable=protected-access
 
@@ -419,6 +436,8 @@ def strat(tier):
     case = {'gen_a': draw(gen), 'batch_size': draw(st.integers(0, 4)), 'prefetch_size': draw(st.integers(1, 3)),
             'schedule': draw(schedule_strategy())}
     mode = draw(st.sampled_from(['plain', 'plain', 'reinit', 'interrupt']))
+    if mode != 'interrupt' and draw(st.integers(0, 4)) == 0:
+      case['bad_init'] = [draw(st.sampled_from(['first', 'after'])), draw(st.sampled_from(['raises', 'not_iterable']))]
     if mode == 'reinit':
       case['gen_b'] = draw(gen)
       case['reinit_after'] = draw(st.integers(0, 3))
